@@ -128,6 +128,8 @@ class FakeRandom:
 
     def choice(self, seq):
         self.choice_args = list(seq)
+        if not len(seq):    # as random.choice
+            raise IndexError("Cannot choose from an empty sequence")
         self.choice_idx = self.pick % len(seq)
         return seq[self.choice_idx]
 
@@ -236,7 +238,7 @@ def run_impl(c):
         else:
             comp.on_new_cycle({n: (mod.DsaMessage(v), 0) for n, v in nb.items()}, 0)
     except Exception as e:
-        return R.err_obs(e)
+        return dict(R.err_obs(e), violated=violated[0] if violated else False)
     finally:
         mod.random = saved
     return dict(selected=selected, violated=violated[0] if violated else False,
@@ -355,11 +357,13 @@ def oracle(c, o):
                 c["mode"], costs, o["values"], o["cost"], exp, best)
         return None
     # DSA family: a selected value must be optimal for the neighbour values used
-    if "error" in o:
-        return "%s step raised %s" % (k, o["error"])
     costs = local_costs(c, dict((a, b) for a, b in c["asg"]))
     if has_nan(costs):
+        # some candidate's cost is the undefined sum inf + (-inf): no optimum is defined, outside
+        # the property (the theorems exclude nan too); still compared with the model
         return None
+    if "error" in o:
+        return "%s step raised %s" % (k, o["error"])
     best = opt(costs)
     exp = [d for d, cst in zip(x["dom"], costs) if cst == best]
     for v, cst in o["selected"]:
@@ -400,7 +404,7 @@ def coq_case(c, o):
         return "CAsgCost %s %s %s %s" % (R.g_asg(c["asg"]), cs, q.b(c["consider"]), R.g_res(o, "cost", R.ec))
     if "error" in o:
         sel = R.g_res(o, "selected", None)
-        violated, draw_ok, pick = False, False, 0
+        violated, pick = o.get("violated", False), 0
     else:
         sel = "(Ok %s)" % q.opt(o["selected"][0][0] if o["selected"] else None, q.z)
         violated = o["violated"]
